@@ -134,6 +134,8 @@ func TestVerif(t *testing.T) {
 		familyDiscovery(t)
 	case "sched":
 		familySched(t)
+	case "discovery-real":
+		familyDiscoveryReal(t)
 	default:
 		t.Fatalf("unknown VERIF_FAMILY %q", fam)
 	}
